@@ -139,4 +139,64 @@ def eval (s : DState α) (z : List α) (t : α) : Option (List α) :=
 
 end DState
 
+/-! ### the caller's arrays: who owns the break points
+
+`setTemperatureArray(times, temperatures)` is handed two array OBJECTS of the caller.  Two questions
+are invisible in the value-level model above: does the call change those objects, and does the
+stored schedule keep following them afterwards?  Here the caller's arrays live in a `store`
+(object id → contents), several parameter objects may be specified from the same ids, and the
+caller may overwrite elements at any time.
+
+* `VWorld` — value semantics: a specification stores the CONTENTS the arrays have at that moment.
+* `RWorld` — reference semantics: a specification stores the ids (`self.Tparameters = (times,
+  temperatures)` keeps the caller's objects and the lambda reads them at every call).
+In both, a specification leaves the store as it is.  Objects are (times, temperatures); how each
+class evaluates them is `PState.eval` / `DState.eval` above. -/
+
+/-- `l[i] = f l[i]`, nothing out of range -/
+def updAt {β : Type} : List β → Nat → (β → β) → List β
+  | [], _, _ => []
+  | x :: r, 0, f => f x :: r
+  | x :: r, i + 1, f => x :: updAt r i f
+
+/-- `l[i]`, `none` out of range -/
+def nth {β : Type} : List β → Nat → Option β
+  | [], _ => none
+  | x :: _, 0 => some x
+  | _ :: r, i + 1 => nth r i
+
+inductive WOp (α : Type) where
+  /-- a new `TemperatureParameters(store[tid], store[Tid])` -/
+  | ctor (tid Tid : Nat)
+  /-- `objs[obj].setTemperatureArray(store[tid], store[Tid])` (directly, through
+      `setTemperatureParameters`, or through the model's `setTemperature…`) -/
+  | setArr (obj tid Tid : Nat)
+  /-- the caller: `store[id][i] = v` -/
+  | write (id i : Nat) (v : α)
+
+def arrOf {α : Type} (store : List (List α)) (id : Nat) : List α := (nth store id).getD []
+
+structure VWorld (α : Type) where
+  store : List (List α)
+  objs : List (List α × List α)
+
+structure RWorld (α : Type) where
+  store : List (List α)
+  objs : List (Nat × Nat)
+
+def VWorld.step {α : Type} (w : VWorld α) : WOp α → VWorld α
+  | .ctor a b => { w with objs := w.objs ++ [(arrOf w.store a, arrOf w.store b)] }
+  | .setArr o a b => { w with objs := updAt w.objs o (fun _ => (arrOf w.store a, arrOf w.store b)) }
+  | .write id i v => { w with store := updAt w.store id (fun l => l.set i v) }
+
+def RWorld.step {α : Type} (w : RWorld α) : WOp α → RWorld α
+  | .ctor a b => { w with objs := w.objs ++ [(a, b)] }
+  | .setArr o a b => { w with objs := updAt w.objs o (fun _ => (a, b)) }
+  | .write id i v => { w with store := updAt w.store id (fun l => l.set i v) }
+
+/-- what object `o` holds when it is called -/
+def VWorld.obj {α : Type} (w : VWorld α) (o : Nat) : Option (List α × List α) := nth w.objs o
+def RWorld.obj {α : Type} (w : RWorld α) (o : Nat) : Option (List α × List α) :=
+  (nth w.objs o).map (fun p => (arrOf w.store p.1, arrOf w.store p.2))
+
 end KawinV.TempSched
